@@ -52,6 +52,8 @@ def main():
             ref.branch(d["s"])
         outs.append([str(x) for x in out])
         j = L.judge(uni, ref, d, out)
+        if j and j[0] == "value-on-unsat":
+            j = (j[0] + L.replaced_predicate(uni, solvers[d["s"]], d), j[1])
         if j:
             fails.append([k, j[0], j[1]])
     json.dump({"fails": fails, "outs": outs}, sys.stdout)
